@@ -47,7 +47,12 @@ func (t *Timer) Set(dur time.Duration, cb func()) error {
 	if err == nil {
 		// TODO error checking here
 		t.slot.Set(ReadEvent, func(error) {
-			_, _ = syscall.Read(t.fd, t.b[:])
+			if _, err := syscall.Read(t.fd, t.b[:]); err == syscall.EAGAIN {
+				// The timer did not expire: this is a stale event, fetched by the poller before the timer was
+				// cancelled and set again by another handler in the same poll cycle. Keep waiting.
+				_ = t.poller.SetRead(&t.slot)
+				return
+			}
 			cb()
 		})
 		err = t.poller.SetRead(&t.slot)
